@@ -59,11 +59,25 @@ def scan_trusted(text: str) -> Dict[str, int]:
 
 # ------------------------------------------------------------------------------------------------ VX
 def run_vx_unit(unit: str, repo: str, scratch: str, tier: str, log: List[str]):
+    """A unit may be assume-guarantee between two parts of the code: when its first run fails in a way the unit module knows
+    how to refine (`refine(obligations) -> variant name`), the unit is rebuilt in that variant and the second result stands."""
+    obls, info = _run_vx_unit_once(unit, repo, scratch, tier, log, None)
+    mod = sys.modules.get(f"units.{unit}")
+    if mod is not None and hasattr(mod, "refine"):
+        variant = mod.refine(obls)
+        if variant:
+            obls2, info2 = _run_vx_unit_once(unit, repo, scratch, tier, log, variant)
+            info2["first_run"] = {"failed": [o.oid for o in obls if o.status == "failed"], "refined_to_variant": variant}
+            return obls2, info2
+    return obls, info
+
+
+def _run_vx_unit_once(unit: str, repo: str, scratch: str, tier: str, log: List[str], variant):
     """returns (obligations, info) ; raises nothing: tool problems become `undecided` obligations"""
     obls: List[Obligation] = []
     info = {"unit": unit, "engine": "VX"}
     try:
-        mod, ub = build_unit(unit, repo)
+        mod, ub = build_unit(unit, repo, variant)
     except (AnchorError, RewriteError, LexError, KeyError, ValueError) as e:
         obls.append(Obligation(f"vx:{unit}:<build>", "VX", unit, "<build>", "undecided", "extractor",
                                detail={"reason": f"{type(e).__name__}: {e}"}))
@@ -111,7 +125,12 @@ def run_vx_unit(unit: str, repo: str, scratch: str, tier: str, log: List[str]):
         if d["level"] != "error" or d["message"].startswith("aborting"):
             continue
         owner = None
-        for (ls, le, lab) in d["lines"]:
+        # the primary span is the failing call site / clause; secondary spans may point into the callee's contract
+        if d["line"] is not None:
+            e = ub.fn_at_line(d["line"])
+            if e is not None and e.kind in ("verify", "canary"):
+                owner = e
+        for (ls, le, lab) in ([] if owner else d["lines"]):
             e = ub.fn_at_line(ls)
             if e is not None and e.kind in ("verify", "canary"):
                 owner = e
@@ -277,8 +296,11 @@ def main_check(a) -> int:
         lines.append(f"KNOWN-FINDING: property={prop} {k['what']} (obligation {o.oid})")
 
     # ---------------- evidence
-    n_obl = len([o for o in obls if not o.name.startswith("<")])
-    n_dis = len([o for o in discharged if not o.name.startswith("<")])
+    # bounded stand-ins are reported separately and are never counted as proved
+    n_obl = len([o for o in obls if not o.name.startswith("<") and o.kind != "bounded"])
+    n_dis = len([o for o in discharged if not o.name.startswith("<") and o.kind != "bounded"])
+    n_bobl = len([o for o in obls if o.kind == "bounded"])
+    n_bdis = len([o for o in discharged if o.kind == "bounded"])
     trusted = []
     for i in infos:
         for k, v in (i.get("trusted_scan") or {}).items():
@@ -294,6 +316,7 @@ def main_check(a) -> int:
         "property_id": prop, "tier": a.tier, "seed": seed, "level": cfg.get("level", "proof"),
         "coverage": {
             "obligations": n_obl, "discharged": n_dis,
+            "bounded_checks": n_bobl, "bounded_checks_passed": n_bdis,
             "checker_cmd": "; ".join(i.get("checker_cmd", "") for i in infos if i.get("checker_cmd")) or "n/a",
             "trusted_base": trusted,
             "samples": samples,
@@ -314,7 +337,7 @@ def main_check(a) -> int:
 
     for l in lines:
         print(l)
-    print(f"[{prop}] tier={a.tier} obligations={n_obl} discharged={n_dis} failed={len(failed)} (known {len(known_hits)}) "
+    print(f"[{prop}] tier={a.tier} obligations={n_obl} discharged={n_dis} bounded={n_bdis}/{n_bobl} failed={len(failed)} (known {len(known_hits)}) "
           f"undecided={len(undecided)} locked={len(locked)} missing={len(missing)} wall={wall:.1f}s")
     if violations:
         return 1
